@@ -27,6 +27,20 @@ pub async fn config_load(args: &[&str]) -> String {
             Ok(x) => x,
             Err(_) => return "ERR connectors".into(),
         };
+        #[cfg(feature = "metrics")]
+        if let Some(mut metrics) = cfg.metrics {
+            if metrics.init().is_err() {
+                return "ERR metrics-init".into();
+            }
+        }
+        if let Some(mut log) = cfg.access_log {
+            if log.init().await.is_err() {
+                return "ERR access-log-init".into();
+            }
+            // the writer task opens the file on its own: give it the time to fail
+            tokio::time::sleep(std::time::Duration::from_millis(50)).await;
+            Arc::get_mut(&mut st_mut.contexts).unwrap().access_log = Some(log);
+        }
         for l in st_mut.listeners.values_mut() {
             if Arc::get_mut(l).unwrap().init().await.is_err() {
                 return "ERR listener-init".into();
